@@ -12,6 +12,10 @@ META_EXCLUDE.add('node_call_id')
 META_EXCLUDE.add('node_sock')
 META_EXCLUDE.add('node_protocol')
 META_EXCLUDE.add('node_without_result')
+# the marks of a round trip that Protocol keeps on the event it has sent: the
+# peer would echo them back as meta, over the outcome of the next round trip
+META_EXCLUDE.add('errors')
+META_EXCLUDE.add('remote_finish')
 META_EXCLUDE.add('success_channels')
 META_EXCLUDE.add('complete_channels')
 META_EXCLUDE.add('cause')
